@@ -65,10 +65,44 @@ func vf36Server() *Server {
 		return &StreamResult{OutputSchema: vfOutSchema, State: &VfExchanger{S: VfScript{Name: "exch", Base: p.X * 10000,
 			Turns: []VfTurn{{Emit: 1, Rows: 100}, {Emit: 1, Rows: 1}}}}}, nil
 	})
+	// exchanges whose (single) turn ends early, after the pointer input has been resolved
+	for name, turn := range map[string]VfTurn{
+		"exch-err":    {Fail: "rpc:ValueError"},
+		"exch-panic":  {Fail: "panic"},
+		"exch-noemit": {}, // returns without emitting: "No data batch was emitted"
+		"exch-cast":   {Emit: 1, Rows: 1},
+	} {
+		name, turn := name, turn
+		Exchange(s, name, vfOutSchema, vfInSchema, func(ctx context.Context, cc *CallContext, p VfXParams) (*StreamResult, error) {
+			return &StreamResult{OutputSchema: vfOutSchema, State: &VfExchanger{S: VfScript{Name: name, Base: p.X * 10000, Turns: []VfTurn{turn}}}}, nil
+		})
+	}
 	return s
 }
 
-var vf36Calls = []string{"usmall", "ularge", "prod", "exch-ptr", "ularge-ptr"}
+// "exch-fail" stands for one of vf36FailModes, chosen once per execution.
+var vf36Calls = []string{"usmall", "ularge", "prod", "exch-ptr", "ularge-ptr", "exch-fail"}
+var vf36FailModes = []string{"exch-err", "exch-panic", "exch-noemit", "exch-cast"}
+
+var vf36Utf8In = arrow.NewSchema([]arrow.Field{{Name: "x", Type: arrow.BinaryTypes.String}}, nil)
+
+func vf36IsFail(call string) bool {
+	for _, m := range vf36FailModes {
+		if m == call {
+			return true
+		}
+	}
+	return false
+}
+
+// vf36CastInput is an input the declared int64 input schema cannot be cast from.
+func vf36CastInput() arrow.RecordBatch {
+	rows := make([]string, 100)
+	for i := range rows {
+		rows[i] = fmt.Sprintf(`{"x":"abc%d"}`, i)
+	}
+	return vfBatchJSON(vf36Utf8In, "["+strings.Join(rows, ",")+"]")
+}
 
 func vf36ExchInput(call, k int) arrow.RecordBatch {
 	vals := make([]int64, 100)
@@ -131,6 +165,7 @@ type vf36Client struct {
 	processed int
 	nStreams  int               // complete output streams seen
 	mine      map[uint64]uint64 // offset -> length of the slots the client allocated for its own pointers
+	mineCall  map[uint64]int    // offset -> index of the call that (last) parked a batch there
 	ptrSent   map[int]int       // call index -> pointer batches the client sent
 	received  int               // pointer batches received
 	notes     []string
@@ -174,6 +209,7 @@ func (c *vf36Client) toPointer(b arrow.RecordBatch) (arrow.RecordBatch, bool) {
 		return b, false
 	}
 	c.mine[off] = uint64(n)
+	c.mineCall[off] = c.ci
 	c.ptrSent[c.ci]++
 	return vfEmpty(b.Schema(), MetaShmOffset, strconv.FormatUint(off, 10), MetaShmLength, strconv.Itoa(n)), true
 }
@@ -200,6 +236,7 @@ func (c *vf36Client) next() []byte {
 		case "exch-ptr":
 			more = c.sent < 2
 		}
+		// the early-ending exchanges get exactly one input
 		if !done && more {
 			c.writeInput(call)
 			return c.takeWritten()
@@ -234,11 +271,16 @@ func (c *vf36Client) next() []byte {
 		chunk = vfRequest("ularge", params, kv...)
 		c.reqSent++
 		c.ci++
-	case "prod", "exch-ptr":
+	case "prod", "exch-ptr", "exch-err", "exch-panic", "exch-noemit", "exch-cast":
 		method := "prod"
 		schema := vfEmptySchema
-		if call == "exch-ptr" {
+		switch {
+		case call == "exch-ptr":
 			method, schema = "exch", vfInSchema
+		case call == "exch-cast":
+			method, schema = call, vf36Utf8In
+		case vf36IsFail(call):
+			method, schema = call, vfInSchema
 		}
 		chunk = vfXReq(method, x, adv...)
 		c.reqSent++
@@ -249,6 +291,8 @@ func (c *vf36Client) next() []byte {
 			n := 3
 			if call == "exch-ptr" {
 				n = 2
+			} else if vf36IsFail(call) {
+				n = 1
 			}
 			for i := 0; i < n; i++ {
 				c.writeInput(call)
@@ -269,6 +313,8 @@ func (c *vf36Client) writeInput(call string) {
 	var b arrow.RecordBatch
 	if call == "prod" {
 		b = vfEmpty(vfEmptySchema)
+	} else if call == "exch-cast" {
+		b, _ = c.toPointer(vf36CastInput())
 	} else {
 		b, _ = c.toPointer(vf36ExchInput(c.ci, c.sent))
 	}
@@ -398,7 +444,7 @@ type vf36Session struct {
 
 func vf36Run(calls []string, seg *ShmSegment, advert string, ahead bool) *vf36Session {
 	vfResetEvents()
-	c := &vf36Client{seg: seg, advert: advert, ahead: ahead, calls: calls, mine: map[uint64]uint64{}, ptrSent: map[int]int{}}
+	c := &vf36Client{seg: seg, advert: advert, ahead: ahead, calls: calls, mine: map[uint64]uint64{}, mineCall: map[uint64]int{}, ptrSent: map[int]int{}}
 	srv := vf36Server()
 	ses := &vf36Session{client: c}
 	func() {
@@ -467,6 +513,17 @@ func TestVerif_C36(t *testing.T) {
 				break
 			}
 			calls = append(calls, vf36Calls[nx-1])
+		}
+		for _, cl := range calls {
+			if cl == "exch-fail" {
+				mode := vf36FailModes[x.Choose(len(vf36FailModes), "fail-mode")]
+				for i := range calls {
+					if calls[i] == "exch-fail" {
+						calls[i] = mode
+					}
+				}
+				break
+			}
 		}
 		sz := segSizes[x.Choose(len(segSizes), "segment")]
 		advert := adverts[x.Choose(len(adverts), "advert")]
@@ -565,19 +622,15 @@ func TestVerif_C36(t *testing.T) {
 		if tab := c.table(); len(tab) != 0 {
 			owner := "server-written"
 			var offs []string
+			kinds := map[string]bool{}
 			for _, e := range tab {
 				if ln, ok := c.mine[e[0]]; ok && ln == e[1] {
 					owner = "client-sent"
+					kinds[calls[c.mineCall[e[0]]]] = true // the call whose input still sits there
 				}
 				offs = append(offs, fmt.Sprintf("%d+%d", e[0]-ShmHeaderSize, e[1]))
 			}
 			sort.Strings(offs)
-			kinds := map[string]bool{}
-			for i, cl := range calls {
-				if c.ptrSent[i] > 0 {
-					kinds[cl] = true
-				}
-			}
 			var ks []string
 			for k := range kinds {
 				ks = append(ks, k)
